@@ -241,6 +241,17 @@ Fixpoint bind_params (ps : list (string * option value)) (vs : list value) (e : 
       end
   end.
 
+(* every parameter without a default value has an argument (otherwise the call is an ArgumentCountError) *)
+Fixpoint enough_args (ps : list (string * option value)) (vs : list value) : bool :=
+  match ps with
+  | [] => true
+  | (_, d) :: r =>
+      match vs with
+      | _ :: vr => enough_args r vr
+      | [] => match d with Some _ => enough_args r [] | None => false end
+      end
+  end.
+
 (* results: out of fuel, or a payload with the frame and the global state *)
 Inductive res (A : Type) := Fuel | Res (a : A) (fr : frame) (g : glob).
 Arguments Fuel {A}.
